@@ -12,7 +12,8 @@ from hypothesis import strategies as st
 from ..common import Check, Mismatch, blame
 
 PROPERTY = "C03"
-RULE = ("op-list histories (<=25 steps, thorough 40) over <=5 small datasets: add_link (one-way, two-way with inverse, identity, two-input, "
+RULE = ("op-list histories (<=25 steps, thorough 40) over <=5 small datasets (half of the histories give some datasets identity or affine "
+        "world coordinates, whose own pixel<->world links then take part in every closure): add_link (one-way, two-way with inverse, identity, two-input, "
         "LinkSame, LinkTwoWay; cycles and diamonds arise), remove_link, add stored/derived component, remove_component, append/remove/"
         "re-append dataset, and bracketed groups inside dc.delay_link_manager_update() or hub.delay_callbacks(). Oracle: link-closure "
         "model (hyper-edges incl. inverses and every dataset's internal links; least-fixpoint depth; admissible value sets along "
@@ -42,11 +43,15 @@ def fn_apply(f, *args):
         return args[0] + args[1]
     if k == "sub":
         return args[0] - args[1]
+    if k == "aff":
+        return args[0] * f[1] + f[2]
     raise ValueError(f)
 
 
 def fn_inverse(f):
     k = f[0]
+    if k == "aff":
+        return ["aff", 1.0 / f[1], -f[2] / f[1]]
     if k == "id":
         return ["id"]
     if k == "shift":
@@ -82,7 +87,7 @@ class Model:
         self.next_link = 0
 
     def own_names(self, d):
-        return [d["name"] + ".pix"] + [d["name"] + "." + c for c in d["order"]]
+        return [d["name"] + ".pix"] + ([d["name"] + ".wld"] if d.get("coords") else []) + [d["name"] + "." + c for c in d["order"]]
 
     def live(self):
         return [d for d in self.datasets if d["live"]]
@@ -96,12 +101,17 @@ class Model:
                 kind = d["comps"][c]
                 if kind[0] == "derived":
                     edges.append((kind[1], d["name"] + "." + c, kind[2]))
+            if d.get("coords"):        # every live dataset's own pixel<->world links take part in everybody's closure
+                edges.append(([d["name"] + ".pix"], d["name"] + ".wld", d["coords"]))
+                edges.append(([d["name"] + ".wld"], d["name"] + ".pix", fn_inverse(d["coords"])))
         return edges
 
     def closure(self, d):
         """depth and admissible value sets for dataset d"""
         base = {}
         base[d["name"] + ".pix"] = np.arange(N_ROWS, dtype=float)
+        if d.get("coords"):
+            base[d["name"] + ".wld"] = fn_apply(d["coords"], np.arange(N_ROWS, dtype=float))
         for c in d["order"]:
             kind = d["comps"][c]
             if kind[0] == "stored":
@@ -142,8 +152,10 @@ class Model:
 
 
 class World:
-    def __init__(self):
+    def __init__(self, with_coords=False):
         from glue.core import DataCollection
+        self.with_coords = with_coords
+        self.has_coords = False
         self.dc = DataCollection()
         self.model = Model()
         self.real_data = {}    # name -> Data
@@ -160,12 +172,20 @@ class World:
         name = "d%d" % self.counter
         self.counter += 1
         vals = [float((seed * 7 + i * 3) % 5 + i) for i in range(N_ROWS)]
-        d = Data(label=name)
+        ckind = [None, None, ["id"], ["aff", 2.0, 1.0], ["aff", -0.5, 3.0]][(seed // 2) % 5] if self.with_coords else None
+        coords = None
+        if ckind is not None:
+            from glue.core.coordinates import IdentityCoordinates, AffineCoordinates
+            coords = IdentityCoordinates(n_dim=1) if ckind[0] == "id" else AffineCoordinates(np.array([[ckind[1], ckind[2]], [0.0, 1.0]]))
+        d = Data(label=name, coords=coords)
         d.add_component(np.array(vals), "a")
         self.real_data[name] = d
         self.cid[name + ".a"] = d.id["a"]
         self.cid[name + ".pix"] = d.pixel_component_ids[0]
-        self.model.datasets.append({"name": name, "live": True, "comps": {"a": ("stored", vals)}, "order": ["a"]})
+        if ckind is not None:
+            self.cid[name + ".wld"] = d.world_component_ids[0]
+            self.has_coords = True
+        self.model.datasets.append({"name": name, "live": True, "comps": {"a": ("stored", vals)}, "order": ["a"], "coords": ckind})
         self.dc.append(d)
         self.mark_add()
 
@@ -431,7 +451,7 @@ class World:
 
 
 def fn_history(spec, rec):
-    w = World()
+    w = World(with_coords=bool(spec.get("coords")))
     for s in spec["setup"]:
         w.new_dataset(s)
     w.check("setup")
@@ -447,6 +467,7 @@ def fn_history(spec, rec):
         rec.label("has-delay-block")
     if any(op[0] == "reappend" for op in spec["ops"]):
         rec.label("has-reappend")
+    rec.label("world-coordinates" if w.has_coords else "no-world-coordinates")
 
 
 # --------------------------------------------------------------------------- generator
@@ -479,9 +500,9 @@ link_op = st.tuples(st.just("link"), st.sampled_from(KINDS), idx, idx, idx, idx,
 
 def cases(max_ops):
     # a few links first (so that chains of length >= 2 exist), then the mixed history
-    return st.builds(lambda setup, pre, ops: {"setup": setup, "ops": pre + ops},
+    return st.builds(lambda setup, pre, ops, coords: {"setup": setup, "ops": pre + ops, "coords": coords},
                      st.lists(idx, min_size=2, max_size=4), st.lists(link_op, min_size=2, max_size=5),
-                     st.lists(op, min_size=2, max_size=max_ops))
+                     st.lists(op, min_size=2, max_size=max_ops), st.booleans())
 
 
 def checks(tier):
